@@ -171,10 +171,12 @@ impl<S> Map<S> {
 
     pub(crate) fn begin_group(&mut self) {
         self.commands.begin_group();
+        self.active_char.begin_group();
     }
 
     pub(crate) fn end_group(&mut self) -> std::result::Result<(), groupingmap::NoGroupToEndError> {
         self.commands.end_group()?;
+        self.active_char.end_group()?;
         Ok(())
     }
 
@@ -383,9 +385,17 @@ impl<'a> SerializableMap<'a> {
                 },
             ))
             .collect();
+        // TODO: active characters are not serialized yet.
+        // Their map still needs the same number of open groups as the control sequence map.
+        let mut active_char: GroupingHashMap<char, Command<S>> = Default::default();
+        for item in self.commands.iter_all() {
+            if let groupingmap::Item::BeginGroup = item {
+                active_char.begin_group();
+            }
+        }
         Map {
             commands,
-            active_char: Default::default(), // TODO
+            active_char,
             built_in_commands,
             primitive_key_to_built_in_lazy: Default::default(),
             getters_key_to_built_in_lazy: Default::default(),
